@@ -316,6 +316,39 @@ def norm_val(v):
     return "|".join(sorted(v)) if isinstance(v, frozenset) else v
 
 
+def tables_equal(exp, got):
+    """Two condition/outcome tables describe the same function of their atoms (row order, atom order, merged or split
+    rows do not matter): every valuation of the atoms is answered with the same outcome by both."""
+    import itertools
+    def alts(v):
+        return set(v.split("|")) if isinstance(v, str) else {v}
+    dom = {}
+    for rows in (exp, got):
+        for r in rows:
+            for a, v in r["cond"]:
+                dom.setdefault(a, set()).update(alts(v))
+    for a, vs in dom.items():
+        if vs <= {0, 1}:
+            vs.update({0, 1})
+        elif len(vs) < 2:
+            # an enum atom of which only one variant is ever named: "any other variant" is a value of its own
+            vs.add("<other>")
+    atoms = sorted(dom)
+    if len(atoms) > 12:
+        return sorted(exp, key=lambda r: json.dumps(r, sort_keys=True)) == sorted(got, key=lambda r: json.dumps(r, sort_keys=True))
+    def outcome(rows, val):
+        outs = set()
+        for r in rows:
+            if all(val[a] in alts(v) for a, v in r["cond"]):
+                outs.add(json.dumps({k: v for k, v in r.items() if k != "cond"}, sort_keys=True))
+        return outs
+    for combo in itertools.product(*[sorted(dom[a], key=str) for a in atoms]):
+        val = dict(zip(atoms, combo))
+        if outcome(exp, val) != outcome(got, val):
+            return False
+    return True
+
+
 def setter_tables(F):
     """{setter: (fn, rows)}; a row is {"cond": [[term, value]...], "side": {field: value}, "delegates": [...]}
     or {"cond": [...], "end": "panic"}; `side` excludes the setter's own field."""
@@ -485,7 +518,7 @@ def r5_cli(F, res):
                                   name, json.dumps(got_side)), f.loc())
         else:
             exp_sorted = sorted(exp, key=lambda r: json.dumps(r, sort_keys=True))
-            if exp_sorted == got_side:
+            if tables_equal(exp_sorted, got_side):
                 res.ok(rid6, "setter/%s/side" % name, f.loc(), json.dumps(got_side))
             else:
                 res.violation(rid6, "setter/%s/side" % name,
